@@ -575,6 +575,101 @@ def r6_depth_readers(ctx):
         raise AnalysisError(f"only {allowed} reads of validation_depth found in the depth machinery: the rule no longer sees its subject")
 
 
+def _depth_cond(e, member):
+    """value of a condition over `<x>.validation_depth` when the depth is ValidationDepth.<member>; None = not decidable"""
+    if isinstance(e, ast.BoolOp):
+        vals = [_depth_cond(v, member) for v in e.values]
+        if isinstance(e.op, ast.And):
+            return False if any(v is False for v in vals) else (None if any(v is None for v in vals) else True)
+        return True if any(v is True for v in vals) else (None if any(v is None for v in vals) else False)
+    if isinstance(e, ast.UnaryOp) and isinstance(e.op, ast.Not):
+        v = _depth_cond(e.operand, member)
+        return None if v is None else (not v)
+    if isinstance(e, ast.Compare) and len(e.ops) == 1:
+        l, r, op = e.left, e.comparators[0], e.ops[0]
+
+        def is_depth(x):
+            return isinstance(x, ast.Attribute) and x.attr == "validation_depth"
+
+        def members(x):
+            if isinstance(x, ast.Attribute) and txt(x.value).endswith("ValidationDepth"):
+                return [x.attr]
+            if isinstance(x, (ast.Tuple, ast.List, ast.Set)):
+                out = []
+                for el in x.elts:
+                    mm = members(el)
+                    if mm is None:
+                        return None
+                    out += mm
+                return out
+            if isinstance(x, ast.Constant) and x.value is None:
+                return ["<None>"]
+            return None
+        if is_depth(r) and not is_depth(l):
+            l, r = r, l
+        if is_depth(l):
+            ms = members(r)
+            if ms is None:
+                return None
+            if isinstance(op, (ast.Eq, ast.Is)):
+                return member in ms
+            if isinstance(op, (ast.NotEq, ast.IsNot)):
+                return member not in ms
+            if isinstance(op, ast.In):
+                return member in ms
+            if isinstance(op, ast.NotIn):
+                return member not in ms
+    return None
+
+
+def r7_coercion_mode(ctx):
+    """The polars coercion stages pick `try_coerce` (evaluates the data, reports uncoercible values) or `coerce` (a lazy
+    cast) by the validation depth.  Both depths that validate data - DATA_ONLY and SCHEMA_AND_DATA - must pick the same
+    one: otherwise an uncoercible value is a failure under SCHEMA_AND_DATA and invisible under DATA_ONLY, and
+    SCHEMA_AND_DATA no longer accepts exactly when SCHEMA_ONLY and DATA_ONLY both accept."""
+    from ..util import assignment_leaves
+    ix = ctx.ix
+    n = 0
+    for m in ix.modules.values():
+        if not m.path.startswith("pandera/backends/polars/"):
+            continue
+        for f in m.all_functions:
+            if not any(isinstance(x, ast.Attribute) and x.attr == "validation_depth" for x in ast.walk(f.node)):
+                continue
+            names = {t.id for st in walk_no_nested(f.node) if isinstance(st, (ast.Assign, ast.AnnAssign)) and st.value is not None
+                     for t in (st.targets if isinstance(st, ast.Assign) else [st.target]) if isinstance(t, ast.Name)
+                     and any((isinstance(x, ast.Constant) and x.value in ("try_coerce", "coerce")) or (isinstance(x, ast.Attribute) and x.attr in ("try_coerce", "coerce"))
+                             for x in ast.walk(st.value))}
+            for name in sorted(names):
+                leaves = assignment_leaves(f.node, name)
+                if len(leaves) < 2:
+                    continue
+                n += 1
+                picks = {}
+                for member in ("SCHEMA_ONLY", "DATA_ONLY", "SCHEMA_AND_DATA"):
+                    sel = []
+                    for conds, val in leaves:
+                        ok = True
+                        for ctext, pol in conds:
+                            v = _depth_cond(ast.parse(ctext, mode="eval").body, member)
+                            if v is None or v != pol:
+                                ok = v is None and ok and None
+                                if v is not None:
+                                    ok = False
+                                    break
+                        if ok is not False:
+                            sel.append("try_coerce" if "try_coerce" in val else "coerce")
+                    picks[member] = sorted(set(sel))
+                same = picks["DATA_ONLY"] == picks["SCHEMA_AND_DATA"] and len(picks["DATA_ONLY"]) == 1
+                ctx.ob("R7", f, f"{f.short}: `{name}` is the same coercion mode under DATA_ONLY and SCHEMA_AND_DATA", same,
+                       f"{picks}" if same else
+                       f"{picks}: the two depths that validate data coerce differently - an uncoercible value is reported under one and never "
+                       "evaluated under the other, so accept_SAD <=> accept_SO and accept_DO fails", f.loc(f.node))
+    ctx.stats["coercion_mode_decisions"] = n
+    if n < 2:
+        raise AnalysisError(f"polars coercion-mode decisions: expected 2 (container helper, column backend), found {n}")
+
+
 def run(ctx):
     r1_env_table(ctx)
     r2_config_context(ctx)
@@ -582,5 +677,6 @@ def run(ctx):
     r4_enabled_gate(ctx)
     r5_polars_depth(ctx)
     r6_depth_readers(ctx)
+    r7_coercion_mode(ctx)
     ctx.assume("os.environ is read only through os.environ.get/os.getenv/os.environ[...] inside pandera/config.py")
     ctx.assume("validate_scope implements skip-by-depth as written (its body is covered by R3's decorator lookup, not re-proved)")
